@@ -207,6 +207,10 @@ impl Account {
 	pub async fn synchronize(&mut self, endpoint: &mut Endpoint) -> Result<(), Error> {
 		let acc_ep = self.get_endpoint(&endpoint.name)?;
 		if !acc_ep.account_url.is_empty() {
+			let ct_hash = hash_contacts(&self.contacts);
+			let key_hash = hash_key(&self.current_key)?;
+			let contacts_changed = ct_hash != acc_ep.contacts_hash;
+			let key_changed = key_hash != acc_ep.key_hash;
 			if let Some(ec) = &self.external_account {
 				let external_account_hash = hash_external_account(ec);
 				if external_account_hash != acc_ep.external_account_hash {
@@ -216,13 +220,14 @@ impl Account {
 					);
 					self.info(&msg);
 					register_account(endpoint, self).await?;
+					// The CA answers with the already existing account if it knows the
+					// key: new contacts have not been taken into account in that case.
+					if contacts_changed {
+						update_account_contacts(endpoint, self).await?;
+					}
 					return Ok(());
 				}
 			}
-			let ct_hash = hash_contacts(&self.contacts);
-			let key_hash = hash_key(&self.current_key)?;
-			let contacts_changed = ct_hash != acc_ep.contacts_hash;
-			let key_changed = key_hash != acc_ep.key_hash;
 			#[cfg(feature = "breard_r_acmed_verif")]
 			crate::verif::emit(
 				"SyncDecision",
@@ -231,11 +236,13 @@ impl Account {
 					"contacts_changed": contacts_changed, "key_changed": key_changed,
 				}),
 			);
-			if contacts_changed {
-				update_account_contacts(endpoint, self).await?;
-			}
+			// The key is rolled over first: the contacts update is signed with the
+			// current key, which the CA must know by then.
 			if key_changed {
 				update_account_key(endpoint, self).await?;
+			}
+			if contacts_changed {
+				update_account_contacts(endpoint, self).await?;
 			}
 		} else {
 			register_account(endpoint, self).await?;
